@@ -50,7 +50,7 @@ def main(argv):
         if not os.path.isdir(d):
             continue
         for n in sorted(os.listdir(d)):
-            if os.path.exists(os.path.join(d, n, 'patch.diff')):
+            if os.path.exists(os.path.join(d, n, 'patch.diff')) and not os.path.exists(os.path.join(d, n, 'OBSOLETE')):
                 if not sel or prop in sel or '%s/%s' % (prop, n) in sel:
                     items.append((prop, n))
     results = {}
